@@ -5,18 +5,39 @@
 // results are non-nil); implementations: secp256k1.go (A-LIB-EC for the arithmetic itself).
 package curve
 
+// Abstract group (Tier C): every Scalar / Point object has a ghost value (scval / ptval) in an
+// uninterpreted field F and group P; the operations of the interfaces are specified over
+//   s_add, s_mul, s_neg, s_inv : F          p_add, p_neg : P          act : F x P -> P          gen : P
+//   xcoord : P -> F      s_zero, s_one : F      p_id : P
+// (equalities only; no ordering, see DESIGN.md 2.7). The implementations in secp256k1.go forward to
+// decred/secp256k1 (A-LIB-EC).
+//@ spec fn s_add(Int, Int) Int
+//@ spec fn s_mul(Int, Int) Int
+//@ spec fn s_neg(Int) Int
+//@ spec fn s_inv(Int) Int
+//@ spec fn p_add(Int, Int) Int
+//@ spec fn p_neg(Int) Int
+//@ spec fn act(Int, Int) Int
+//@ spec fn gen() Int
+//@ spec fn xcoord(Int) Int
+//@ spec fn s_zero() Int
+//@ spec fn p_id() Int
+//@ spec fn s_of_nat(Int) Int
+//@ spec fn s_overhalf(Int) Bool
+//@ spec fn benc(Iface) Int
+
 //@ interface Curve method NewPoint
 //@   modifies nothing
 //@   allocates
-//@   ensures result != nil
+//@   ensures result != nil && fresh(result) && ptval(result) == p_id()
 //@ interface Curve method NewBasePoint
 //@   modifies nothing
 //@   allocates
-//@   ensures result != nil
+//@   ensures result != nil && fresh(result) && ptval(result) == gen()
 //@ interface Curve method NewScalar
 //@   modifies nothing
 //@   allocates
-//@   ensures result != nil
+//@   ensures result != nil && fresh(result) && scval(result) == s_zero()
 //@ interface Curve method Name
 //@   pure
 //@ interface Curve method ScalarBits
@@ -34,46 +55,49 @@ package curve
 //@   ensures result != nil
 //@ interface Scalar method Add
 //@   requires arg0 != nil
-//@   modifies nothing
-//@   ensures result == self
+//@   modifies scval(self)
+//@   ensures result == self && scval(self) == s_add(old(scval(self)), old(scval(arg0)))
 //@ interface Scalar method Sub
 //@   requires arg0 != nil
-//@   modifies nothing
-//@   ensures result == self
+//@   modifies scval(self)
+//@   ensures result == self && scval(self) == s_add(old(scval(self)), s_neg(old(scval(arg0))))
 //@ interface Scalar method Mul
 //@   requires arg0 != nil
-//@   modifies nothing
-//@   ensures result == self
+//@   modifies scval(self)
+//@   ensures result == self && scval(self) == s_mul(old(scval(self)), old(scval(arg0)))
 //@ interface Scalar method Set
 //@   requires arg0 != nil
-//@   modifies nothing
-//@   ensures result == self
+//@   modifies scval(self)
+//@   ensures result == self && scval(self) == old(scval(arg0))
 //@ interface Scalar method SetNat
 //@   requires arg0 != nil
-//@   modifies nothing
-//@   ensures result == self
+//@   modifies scval(self)
+//@   ensures result == self && scval(self) == s_of_nat(natval(arg0))
 //@ interface Scalar method Negate
-//@   modifies nothing
-//@   ensures result == self
+//@   modifies scval(self)
+//@   ensures result == self && scval(self) == s_neg(old(scval(self)))
 //@ interface Scalar method Invert
-//@   modifies nothing
-//@   ensures result == self
+//@   modifies scval(self)
+//@   ensures result == self && scval(self) == s_inv(old(scval(self)))
 //@ interface Scalar method Equal
 //@   requires arg0 != nil
 //@   modifies nothing
+//@   ensures result == (scval(self) == scval(arg0))
 //@ interface Scalar method IsZero
 //@   modifies nothing
+//@   ensures result == (scval(self) == s_zero())
 //@ interface Scalar method IsOverHalfOrder
 //@   modifies nothing
+//@   ensures result == s_overhalf(scval(self))
 //@ interface Scalar method Act
 //@   requires arg0 != nil
 //@   modifies nothing
 //@   allocates
-//@   ensures result != nil
+//@   ensures result != nil && fresh(result) && ptval(result) == act(scval(self), ptval(arg0))
 //@ interface Scalar method ActOnBase
 //@   modifies nothing
 //@   allocates
-//@   ensures result != nil
+//@   ensures result != nil && fresh(result) && ptval(result) == act(scval(self), gen())
 
 //@ interface Point method Curve
 //@   pure
@@ -82,25 +106,27 @@ package curve
 //@   requires arg0 != nil
 //@   modifies nothing
 //@   allocates
-//@   ensures result != nil
+//@   ensures result != nil && fresh(result) && ptval(result) == p_add(ptval(self), ptval(arg0))
 //@ interface Point method Sub
 //@   requires arg0 != nil
 //@   modifies nothing
 //@   allocates
-//@   ensures result != nil
+//@   ensures result != nil && fresh(result) && ptval(result) == p_add(ptval(self), p_neg(ptval(arg0)))
 //@ interface Point method Negate
 //@   modifies nothing
 //@   allocates
-//@   ensures result != nil
+//@   ensures result != nil && fresh(result) && ptval(result) == p_neg(ptval(self))
 //@ interface Point method Equal
 //@   requires arg0 != nil
 //@   modifies nothing
+//@   ensures result == (ptval(self) == ptval(arg0))
 //@ interface Point method IsIdentity
 //@   modifies nothing
+//@   ensures result == (ptval(self) == p_id())
 //@ interface Point method XScalar
 //@   modifies nothing
 //@   allocates
-//@   ensures result != nil
+//@   ensures result != nil && fresh(result) && scval(result) == xcoord(ptval(self))
 
 // Decoders of group elements from arbitrary bytes (length checks proved; field arithmetic is A-LIB-EC).
 //@ func (*Secp256k1Scalar).UnmarshalBinary
